@@ -395,6 +395,7 @@ type fsGenOpts struct {
 	breakPct    int // chance of a parent-link break somewhere
 	noStopPct   int // chance of no stop block (the source tails; the harness shuts it down)
 	fixedBundle uint64
+	cutPct      int // chance that a bundle followed by another one is cut exactly on a message boundary
 }
 
 // fsGenLayout draws a layout: bundle size, a start anywhere in the first bundle (also on a missing
@@ -470,6 +471,14 @@ func fsGenLayout(r *Rng, o fsGenOpts) *fsLayout {
 		l.Stop = l.Start + uint64(r.Intn(int(end-l.Start)))
 		if l.Stop == 0 {
 			l.Stop = 1
+		}
+	}
+	if o.cutPct > 0 && nfiles > 1 && r.Chance(o.cutPct) {
+		// a truncated bundle whose cut falls exactly between two messages reads as a clean, shorter file:
+		// only the parent link of the next bundle's first block can tell
+		i := r.Intn(nfiles - 1)
+		if n := len(l.Files[i]); n > 0 {
+			l.Files[i] = l.Files[i][:r.Intn(n)]
 		}
 	}
 	return l
@@ -572,7 +581,7 @@ func fsBuildStore(l *fsLayout, d fsDelays) (*fsStore, map[uint64]bool) {
 
 func c10Gen(r *Rng, i int, tier string) any {
 	in := c10Input{ShutAfter: -1}
-	in.Layout = *fsGenLayout(r, fsGenOpts{maxBundle: 20, maxFiles: 4, breakPct: 18, noStopPct: 12})
+	in.Layout = *fsGenLayout(r, fsGenOpts{maxBundle: 20, maxFiles: 4, breakPct: 18, noStopPct: 12, cutPct: 8})
 	in.Threads = r.Intn(9)
 	if r.Chance(5) {
 		in.NoPre = true
